@@ -16,6 +16,7 @@ type flowBuilder struct {
 	flowReps           map[string]internaltypes.FlowRepI
 	foreignRoot        *EntryPoint
 	nodeBuilder        *graphNodeBuilder
+	incorporating      map[string]bool // flows whose connections are being built right now
 	processorManager   *processors.ProcessorManager
 	resourceManagement *resources.ResourceManagement
 }
@@ -68,6 +69,7 @@ func (fb *flowBuilder) buildFlow(flowRep internaltypes.FlowRepI) error {
 	log.Info().Msgf("Building flow %s", flowRep.GetName())
 
 	flow := NewFlow(fb.nodeBuilder, flowRep, fb.resourceManagement)
+	fb.incorporating = map[string]bool{flowRep.GetName(): true}
 
 	// process request and response connections
 	if err := fb.buildConnections(
@@ -254,6 +256,11 @@ func (fb *flowBuilder) incorporateFlow(flowName string, targetFlowDir *FlowDirec
 	if !exists {
 		return fmt.Errorf("flow '%s' not found", flowName)
 	}
+	if fb.incorporating[flowName] {
+		return fmt.Errorf("circular reference to flow '%s'", flowName)
+	}
+	fb.incorporating[flowName] = true
+	defer delete(fb.incorporating, flowName)
 
 	// build connections from the source flow and add all to target FlowDirection
 	connections := flowRep.GetFlow().GetFlowConnections(targetFlowDir.flowType)
